@@ -222,6 +222,18 @@ class Multisphere(ScatteringTheory):
     def raw_fields(self, positions, scatterer, medium_wavevec, medium_index,
                     illum_polarization):
         amn, lmax = self._scsmfo_setup(scatterer, medium_wavevec=medium_wavevec, medium_index=medium_index)
+        # The field is evaluated from ONE expansion about the centroid of the
+        # cluster, which only converges outside the smallest sphere about the
+        # centroid that holds all the spheres; inside it the sum is garbage
+        if isinstance(scatterer, Spheres):
+            centers = np.asarray(scatterer.centers, dtype=float)
+            reach = (np.sqrt(((centers - centers.mean(0))**2).sum(1)) +
+                     np.array([np.max(s.r) for s in scatterer.scatterers]))
+            if np.min(positions[0]) < medium_wavevec * reach.max():
+                raise InvalidScatterer(
+                    scatterer, "Multisphere cannot compute the field at "
+                    "detector points closer to the centre of the cluster "
+                    "than its farthest sphere")
         fields = mieangfuncs.tmatrix_fields(positions, amn, lmax, 0,
                                             illum_polarization.values[:2],
                                             self.compute_escat_radial)
